@@ -529,6 +529,21 @@ def fmt_vals(rng, s, n, f, count):
             if s and rng.random() < 0.4:
                 v = -v
             vals.add(clip(s, n, v))
+    if n == 128 and f > 64:
+        # values whose DEFAULT OUTPUT is a literal at the limb-carry boundary of the 128-bit decimal PARSER (its two 27-digit halves join as hi * 10^27 + lo with
+        # hi * 10^27 = m * 2^128 - r and lo > r): a dropped carry there shows under C09 only through format-then-parse (seed s68a; 2^-38 for random values)
+        P27 = 10 ** 27
+        for _ in range(max(4, count // 6)):
+            m = rng.randrange(1, (10 ** 54) >> 128)
+            hi_ = (m << 128) // P27
+            r_ = (m << 128) - hi_ * P27
+            lo_ = (r_ + P27) // 2 if rng.random() < 0.7 else rng.randrange(r_, P27)
+            frac = ((hi_ * P27 + lo_) << f) // (10 ** 54)
+            ip = rng.randrange(0, 1 << min(n - f - (1 if s else 0), 20)) if n - f - (1 if s else 0) > 0 else 0
+            v = (ip << f) | (frac & ((1 << f) - 1))
+            if s and rng.random() < 0.4:
+                v = -v
+            vals.add(clip(s, n, v))
     for _ in range(count):
         r = rng.random()
         if r < 0.3:
